@@ -1489,3 +1489,14 @@ Proof.
     by (unfold MAX_BYTES_PER_BAGGAGE, LIMIT_TOTAL_BYTES in *; lia).
   now rewrite E1, E2.
 Qed.
+
+(** Extract replaces whatever baggage the context carried. *)
+Lemma extract_into_replaces (parent b : list member) :
+  unique_keys b = true -> forallb member_accepted b = true -> blen b <= LIMIT_MEMBERS ->
+  header_within_limits (baggage_string b) = true -> b <> [] ->
+  extract_into parent (inject b) = (b, false) /\
+  extract_into parent None = (parent, true) /\ extract_into parent (Some []) = (parent, true).
+Proof.
+  intros Hu Ha Hn Hl Hne. destruct (roundtrip b Hu Ha Hn Hl) as [_ He].
+  unfold extract_into. rewrite He. destruct b; [congruence|]. repeat split.
+Qed.
